@@ -12,6 +12,7 @@ from __future__ import annotations
 
 import itertools
 import random
+import re
 from typing import Any
 
 from vp.core import Check, Failure, drive, enc, load_corpus
@@ -66,7 +67,27 @@ def gen_number(rng: random.Random) -> str:
 
 
 TAGS = ["X", "Run Counter", "Block Time", "A1", "Tag 2", "FT01", "pH", "System State", "a_b", "T 1 2", "Ünit tag", "x.y"]
-TEXT_VALUES = ["Running", "Not Running", "on", "a b c", "e5", "x2", "Ünicode", "A.1", "m-3"]
+TEXT_VALUES = ["Running", "Not Running", "on", "a b c", "e5", "x2", "Ünicode", "A.1", "m-3", "on hold 2",
+               "step 3 of 4", "2 of 3", "0,98", "1st pass", "3-way", "12:30", "1.5.2", "7 up!", "5 µm", "-1 or less",
+               "2e3 x 4", ".5 to 1", "10 000", "1/2 full"]
+_NUMBER_LIKE = re.compile(r"[+-]?(\d+(\.\d*)?|\.\d+)([eE][+-]?\d+)?\s*[a-zA-Z%/23*]*")
+TEXT_TAILS = [" of 3", ",98", "st pass", "-way", ":30", ".2.1", " up!", " µm", " or less", " x 4", " to 1", " 000", "_a", "(b)"]
+
+
+def is_text_value(v: str) -> bool:
+    """Independent of the implementation: `v` cannot be read as a number with an optional unit (for any split),
+    so as a condition value it is a text — also when it begins with digits ("2 of 3", "0,98", "1st pass")."""
+    return v == v.strip() and v != "" and not any(ch in v for ch in "<>=!#") and _NUMBER_LIKE.fullmatch(v) is None
+
+
+def gen_text_value(rng: random.Random) -> str:
+    if rng.random() < 0.5:
+        return rng.choice(TEXT_VALUES)
+    for _ in range(20):
+        v = gen_number(rng) + rng.choice(TEXT_TAILS)
+        if is_text_value(v):
+            return v
+    return "2 of 3"
 NAME_EXTRA = ["Foo", "_x", "My command 2", "Mark2", "a.b", "U-näme", "x", "Zeta (1)", "End", "Watch dog"]
 
 
@@ -74,7 +95,7 @@ def gen_cond(rng: random.Random, ops: list[str], units: list[str]) -> dict:
     tag = rng.choice(TAGS)
     op = rng.choice(ops)
     s1, s2 = rng.choice(["", " ", " ", "  ", "\t"]), rng.choice(["", " ", " ", "  ", "\xa0"])
-    if rng.random() < 0.8:
+    if rng.random() < 0.7:
         value = gen_number(rng)
         unit = None
         if rng.random() < 0.6:
@@ -83,7 +104,7 @@ def gen_cond(rng: random.Random, ops: list[str], units: list[str]) -> dict:
         ws = rng.choice([" ", " ", "  ", "\t"])
         text = tag + s1 + op + s2 + value + ("" if unit is None else ws + unit)
     else:
-        value, unit = rng.choice(TEXT_VALUES), None
+        value, unit = gen_text_value(rng), None
         text = tag + s1 + op + s2 + value
     return {"tag": tag, "op": op, "value": value, "unit": unit, "text": text}
 
@@ -135,17 +156,25 @@ def mutate(rng: random.Random, s: str) -> str:
 def cond_failure(case: Any, c, cond: dict) -> Failure | None:
     got = {"tag": c.tag_name, "op": c.op, "value": c.tag_value, "unit": c.tag_unit}
     want = {k: cond[k] for k in ("tag", "op", "value", "unit")}
+    text_value = cond["unit"] is None and is_text_value(cond["value"])
+    if text_value:  # a text is not a number
+        got["numeric"], want["numeric"] = c.tag_value_numeric, None
     if got == want and not c.error:
         return None
     unit = cond["unit"]
-    if unit is not None and not set(unit) <= UNIT_CLASS and got["tag"] == want["tag"] and got["op"] == want["op"]:
-        key = "supported-unit-not-recognised"
-    elif cond["unit"] is None and got["tag"] == want["tag"] and got["op"] == want["op"] and got["unit"] is not None \
-            and (got["value"] or "") + got["unit"] == cond["value"]:
+    rhs = cond["text"].split(cond["op"], 1)[1].strip()
+    if unit is not None and not set(unit) <= UNIT_CLASS and not c.error and \
+            {**got, "value": rhs, "unit": None} == {**want, "value": rhs, "unit": None} and \
+            got["value"] == rhs and got["unit"] is None:
+        key = "supported-unit-not-recognised"  # exactly the recorded shape: number and unit kept together as a text
+    elif cond["unit"] is None and not text_value and got["tag"] == want["tag"] and got["op"] == want["op"] \
+            and got["unit"] is not None and (got["value"] or "") + got["unit"] == cond["value"]:
         key = "number-tail-parsed-as-unit"
     else:
-        key = "condition-part-mismatch:" + ",".join(k for k in want if got[k] != want[k]) + \
-              (":error" if c.error else "")
+        bad = [k for k in want if got[k] != want[k]]
+        if "value" in bad and "numeric" in bad:
+            bad.remove("numeric")  # consequence of the wrong value, not a second signature
+        key = "condition-part-mismatch:" + ",".join(bad) + (":error" if c.error else "")
     return Failure(key, case, f"{cond['text']!r}: expected {want}, parser reports {got} error={c.error}")
 
 
@@ -211,7 +240,8 @@ def run(ctx: Check) -> int:
     ctx.rule = ("lines = spaces{0..17} (threshold ' ')? name (': ' argument)? pad ('#' ws comment)? with names from every "
                 "instruction, UOD commands and free names (letter/_ first, spaces, digits, unicode), arguments with ':' and "
                 "spaces; Watch/Alarm/Simulate arguments = tag ws* op ws* value (ws+ unit)? over all 7 operators, every "
-                "supported unit, numbers with sign/fraction/exponent (many ending in 2 or 3), text values. Near-misses: "
+                "supported unit, numbers with sign/fraction/exponent (many ending in 2 or 3), text values with spaces including texts "
+                "that begin with a number ('2 of 3', '0,98', '1st pass': anything that cannot be read as number + unit). Near-misses: "
                 "1-2 character mutations of such lines and arbitrary unicode lines (model/implementation agreement only). "
                 "Right-hand sides: all strings up to length 4/6 over {5,2,3,.,e,+,-,m,space}. Non-trivial = line has at "
                 "least two optional parts, or the condition has a unit or a multi-digit number.")
@@ -223,7 +253,7 @@ def run(ctx: Check) -> int:
     for ops in (COND_OPS, ["="]):
         for op in ops:
             for u in units + [None]:
-                for v in ("5", "12", "0.3", "1e3", "-2.52"):
+                for v in ("5", "12", "0.3", "1e3", "-2.52") + (("2 of 3", "0,98", "1st pass", "Not Running") if u is None else ()):
                     tag = rng.choice(TAGS)
                     text = f"{tag} {op} {v}" + ("" if u is None else " " + u)
                     conds.append({"ops": ops, "part": text,
@@ -275,7 +305,8 @@ def run(ctx: Check) -> int:
     for c in conds:
         ctx.count("op:" + c["cond"]["op"])
         v, u = c["cond"]["value"], c["cond"]["unit"]
-        ctx.count("value:text" if v[0].isalpha() else "value:number" + ("-ending-2-or-3" if v[-1] in "23" else ""))
+        ctx.count(("value:text-beginning-with-number" if v[0] in "+-.0123456789" else "value:text")
+                  if u is None and is_text_value(v) else "value:number" + ("-ending-2-or-3" if v[-1] in "23" else ""))
         ctx.count("unit:none" if u is None else "unit:outside-class" if not set(u) <= UNIT_CLASS else "unit:in-class")
     ctx.extra["supported_units"] = units
     ctx.extra["exhaustive_scope"] = f"right-hand sides: all {len(rhs)} strings of length <= {ctx.n(4, 6)} over {alpha}"
@@ -283,7 +314,8 @@ def run(ctx: Check) -> int:
     ctx.assumptions = ["lines contain no line-boundary character (they come from str.splitlines)",
                        "a well-formed instruction name starts with a letter or '_' and is trimmed; argument and text "
                        "values are trimmed; tags and values contain none of < > = !; a unit follows a number after at "
-                       "least one white-space character"]
+                       "least one white-space character; a text value is any such string that cannot be read as a number "
+                       "followed by optional white space and unit characters"]
     return ctx.finish(search=_search)
 
 
